@@ -313,6 +313,10 @@ def run_case(inp):
             lds = ld.construct_landscape(tmpl, max_shifts=1.0)
             out["lds_declared"] = np.array(lds.shape)
             out["landscape"] = np.asarray(lds.compute())
+            lb = ld.binning(2)
+            out["binned_image_shape"] = np.array(np.asarray(lb.image).shape)
+            out["binned"] = np.asarray(lb.asnumpy())
+            out["binned_average"] = np.asarray(lb.average())
             cd = ld.construct_dask()
             out["dask_declared"] = np.array(cd.shape)
             out["dask_shape"] = np.array(cd.compute().shape)
